@@ -67,21 +67,25 @@ def TkEnd (u : List Char) (tk : Tok) : Prop :=
     runTail Gen.cfgS T u ⟨pre.length, pre.length, .WAIT, f :: fs⟩ =
       runTail Gen.cfgS T [] ⟨pre.length + u.length, pre.length + u.length, .WAIT, (f ++ [tk]) :: fs⟩
 
-/-- what may follow a complete expression text: nothing, a blank, a closing bracket -/
-def Delim (rest : List Char) : Prop := rest = [] ∨ ∃ r, rest = ' ' :: r ∨ rest = ')' :: r
+/-- what may follow a complete expression text: nothing, a blank, a closing bracket, a comma, a line break -/
+def Delim (rest : List Char) : Prop :=
+  rest = [] ∨ ∃ r, rest = ' ' :: r ∨ rest = ')' :: r ∨ rest = ',' :: r ∨ rest = '\n' :: r
 
 def Lx (u : List Char) (ts : List Tok) : Prop :=
   ∀ (T pre rest : List Char) (f : List Tok) (fs : List (List Tok)), T = pre ++ u ++ rest → Delim rest →
     runTail Gen.cfgS T (u ++ rest) ⟨pre.length, pre.length, .WAIT, f :: fs⟩ =
       runTail Gen.cfgS T rest ⟨pre.length + u.length, pre.length + u.length, .WAIT, (f ++ ts) :: fs⟩
 
-theorem Lx.of_tk {u : List Char} {tk : Tok} (h1 : Tk u tk ' ') (h2 : Tk u tk ')') (h3 : TkEnd u tk) : Lx u [tk] := by
+theorem Lx.of_tk {u : List Char} {tk : Tok} (h1 : Tk u tk ' ') (h2 : Tk u tk ')') (h4 : Tk u tk ',') (h5 : Tk u tk '\n')
+    (h3 : TkEnd u tk) : Lx u [tk] := by
   intro T pre rest f fs hT hd
-  rcases hd with rfl | ⟨r, rfl | rfl⟩
+  rcases hd with rfl | ⟨r, rfl | rfl | rfl | rfl⟩
   · simp only [List.append_nil] at hT ⊢
     exact h3 T pre f fs hT
   · exact h1 T pre r f fs hT
   · exact h2 T pre r f fs hT
+  · exact h4 T pre r f fs hT
+  · exact h5 T pre r f fs hT
 
 /-- a token that is complete by itself (it returns between tokens whatever follows) -/
 theorem Lx.of_feed {u : List Char} {tk : Tok}
@@ -111,7 +115,7 @@ theorem Lx.paren {a : List Char} {ta : List Tok} (ha : Lx a ta) :
   have e1 : ('(' :: (a ++ [')'])) ++ rest = '(' :: (a ++ (')' :: rest)) := by simp
   rw [e1, step_open]
   have hT1 : T = (pre ++ ['(']) ++ a ++ (')' :: rest) := by rw [hT]; simp
-  have := ha T (pre ++ ['(']) (')' :: rest) [] (f :: fs) hT1 (Or.inr ⟨_, Or.inr rfl⟩)
+  have := ha T (pre ++ ['(']) (')' :: rest) [] (f :: fs) hT1 (Or.inr ⟨_, Or.inr (Or.inl rfl)⟩)
   simp only [List.length_append, List.length_cons, List.length_nil, List.nil_append] at this ⊢
   rw [this, step_close]
   congr 2 <;> omega
@@ -416,8 +420,9 @@ theorem tkEnd_of_check (u : List Char) (tk : Tok) (h : tkEndCheck u = some tk) :
 /-- Bool forms, decidable by the kernel for closed token texts -/
 def tkIs (u : List Char) (d : Char) (tk : Tok) : Bool := match tkCheck u d with | some t => Tok.eqb t tk | none => false
 def tkEndIs (u : List Char) (tk : Tok) : Bool := match tkEndCheck u with | some t => Tok.eqb t tk | none => false
-/-- `u` is a complete expression-level token: before a blank, before `)`, at the end of the text -/
-def lxIs (u : List Char) (tk : Tok) : Bool := tkIs u ' ' tk && tkIs u ')' tk && tkEndIs u tk
+/-- `u` is a complete expression-level token: before a blank, `)`, `,`, a line break, and at the end of the text -/
+def lxIs (u : List Char) (tk : Tok) : Bool :=
+  tkIs u ' ' tk && tkIs u ')' tk && tkIs u ',' tk && tkIs u '\n' tk && tkEndIs u tk
 
 theorem tk_of_is {u : List Char} {d : Char} {tk : Tok} (h : tkIs u d tk = true) : Tk u tk d := by
   unfold tkIs at h
@@ -433,7 +438,7 @@ theorem tkEnd_of_is {u : List Char} {tk : Tok} (h : tkEndIs u tk = true) : TkEnd
 
 theorem lx_of_is {u : List Char} {tk : Tok} (h : lxIs u tk = true) : Lx u [tk] := by
   simp only [lxIs, Bool.and_eq_true] at h
-  exact Lx.of_tk (tk_of_is h.1.1) (tk_of_is h.1.2) (tkEnd_of_is h.2)
+  exact Lx.of_tk (tk_of_is h.1.1.1.1) (tk_of_is h.1.1.1.2) (tk_of_is h.1.1.2) (tk_of_is h.1.2) (tkEnd_of_is h.2)
 
 /-! ## the variable tokens -/
 
@@ -473,18 +478,19 @@ theorem lx_int (ds : List Char) (hne : ds ≠ []) (hd : ∀ c ∈ ds, isDigit c.
       refine ⟨q, hq, ?_⟩
       rw [feedAllWith_cons_adv h1, hr]
       simp only [List.length_cons]; congr 2; omega
-  have hd1 : ∀ (d : Char), (d = ' ' ∨ d = ')') → Tk ds (.single ds (Gen.mark_LITERAL ||| Gen.mark_LITERAL_INT)) d := by
+  have hd1 : ∀ (d : Char), (d = ' ' ∨ d = ')' ∨ d = ',' ∨ d = '\n') → Tk ds (.single ds (Gen.mark_LITERAL ||| Gen.mark_LITERAL_INT)) d := by
     intro d hdd
     refine tk_of_pending' ds d _ fun T pre more f fs hT => ?_
     obtain ⟨q, hq, hr⟩ := hrun T pre.length (f :: fs)
     refine ⟨q, hr, ?_⟩
     have hb : Gen.cfgS.lookup q (.ch d) = some (emitBefore mInt) := by
-      rcases hq with rfl | rfl <;> rcases hdd with rfl | rfl <;> exact look (by decide +kernel)
+      rcases hq with rfl | rfl <;> rcases hdd with rfl | rfl | rfl | rfl <;> exact look (by decide +kernel)
     rw [handle_emitBefore shipped_code (m := ⟨pre.length, pre.length + ds.length, q, f :: fs⟩) hb rfl]
     have hw : win T ⟨pre.length, pre.length + ds.length, q, f :: fs⟩ (pre.length + ds.length) = ds := by
       rw [hT]; exact win_mid pre ds (d :: more) _ _ _
     rw [hw]; rfl
-  refine Lx.of_tk (hd1 ' ' (Or.inl rfl)) (hd1 ')' (Or.inr rfl)) (tkEnd_of_pending ds _ fun T pre f fs hT => ?_)
+  refine Lx.of_tk (hd1 ' ' (Or.inl rfl)) (hd1 ')' (Or.inr (Or.inl rfl))) (hd1 ',' (Or.inr (Or.inr (Or.inl rfl))))
+    (hd1 '\n' (Or.inr (Or.inr (Or.inr rfl)))) (tkEnd_of_pending ds _ fun T pre f fs hT => ?_)
   obtain ⟨q, hq, hr⟩ := hrun T pre.length (f :: fs)
   refine ⟨q, hr, ?_⟩
   have he : Gen.cfgS.lookup q .eof = some (emitAtEnd mInt) := by
@@ -505,7 +511,8 @@ theorem lx_string (k : QK) (hk : k ≠ .bq) (body : List Char) (hb : strBody k.c
     obtain ⟨g1, g2, _⟩ := escaped_quote k hk pre body (d :: more) hb f fs
     refine ⟨k.pending, by rw [hT]; exact g1, ?_⟩
     rw [hT, ← hm]; exact g2 d hdd
-  refine Lx.of_tk (hd1 ' ' (by cases k <;> decide)) (hd1 ')' (by cases k <;> decide))
+  refine Lx.of_tk (hd1 ' ' (by cases k <;> decide)) (hd1 ')' (by cases k <;> decide)) (hd1 ',' (by cases k <;> decide))
+    (hd1 '\n' (by cases k <;> decide))
     (tkEnd_of_pending _ _ fun T pre f fs hT => ?_)
   obtain ⟨g1, _, g3⟩ := escaped_quote k hk pre body [] hb f fs
   simp only [List.append_nil] at g1 g3
@@ -518,7 +525,8 @@ theorem lx_word (w : List Char) (hw : isWord w = true) : Lx w [.single w (C05.wo
     have := tk_of_pending w .IN_WORD d emitWordBefore (fun T n stk => word_run T w hw n stk) (word_stop d hdd) (by decide)
       (by decide)
     simpa [endTok, C05.wordMark, Gen.mark_NAME] using this
-  refine Lx.of_tk (hd1 ' ' (by decide +kernel)) (hd1 ')' (by decide +kernel))
+  refine Lx.of_tk (hd1 ' ' (by decide +kernel)) (hd1 ')' (by decide +kernel)) (hd1 ',' (by decide +kernel))
+    (hd1 '\n' (by decide +kernel))
     (tkEnd_of_pending w _ fun T pre f fs hT => ⟨.IN_WORD, word_run T w hw _ _, ?_⟩)
   have he : Gen.cfgS.lookup .IN_WORD .eof = some emitWordAtEnd := lookEnd (by decide +kernel)
   rw [handle_emitWordAtEnd shipped_code (m := ⟨pre.length, pre.length + w.length, .IN_WORD, f :: fs⟩) he rfl]
